@@ -55,6 +55,11 @@ func genC02(r *rand.Rand, run int, tier string) *vm.Plan {
 			known = append(known, az.Facts...)
 		}
 		blk := g.Hostile(targets, known, r.Intn(2) == 0)
+		if r.Intn(3) == 0 { // rules only: derive what the policies ask for from what everybody can see
+			if ro := g.RuleOnlyBlock(targets, known); len(ro.Rules) > 0 {
+				blk = ro
+			}
+		}
 		tok = h.attenuate(tok, blk)
 		abs.Blocks = append(abs.Blocks, blk)
 		if r.Intn(5) == 0 { // the holder passes it on over the wire
@@ -625,10 +630,28 @@ func genC18(r *rand.Rand, run int, tier string) *vm.Plan {
 		}
 		h.add(vm.Op{K: "verify", A: t, KS: &vm.KeySel{Key: key}, Az: &content, Qs: qs, Lim: bigDur, Name: name})
 		a2 := h.add(vm.Op{K: "az", A: t, KS: &vm.KeySel{Key: key}, Lim: bigDur, Out: h.slot()})
-		if r.Intn(4) == 0 { // the (still empty) authorizer has already answered a query before the snapshot is loaded
+		queriedFirst := r.Intn(4) == 0
+		if queriedFirst { // the (still empty) authorizer has already answered a query before the snapshot is loaded
 			h.add(vm.Op{K: "azquery", A: a2, Qs: qs[:1]})
 		}
 		h.add(vm.Op{K: "azload", A: a2, B: blob})
+		if queriedFirst && !faulty && r.Intn(2) == 0 {
+			// and is only queried afterwards (no Authorize): what the loaded rules derive must be there;
+			// the twin is a fresh authorizer given the same content and asked the same questions
+			var hq []ref.Rule
+			for _, rl := range content.Rules {
+				p := ref.Pred{Name: rl.Head.Name}
+				for i := range rl.Head.Terms {
+					p.Terms = append(p.Terms, ref.Var(fmt.Sprintf("h%d", i)))
+				}
+				hq = append(hq, ref.Rule{Head: p, Body: []ref.Pred{p}})
+			}
+			hq = append(hq, qs...)
+			nq := fmt.Sprintf("queried-tok%d", i)
+			h.add(vm.Op{K: "azquery", A: a2, Qs: hq, Name: nq})
+			h.add(vm.Op{K: "verify", A: t, KS: &vm.KeySel{Key: key}, Az: &content, Qs: hq, Lim: bigDur, Name: nq, Flags: []string{"noauth"}})
+			continue
+		}
 		h.add(vm.Op{K: "azauth", A: a2, Qs: qs, Name: name})
 		if faulty { // the verifier stays usable
 			more := g.AuthzFor(auth.Facts, 2, 1, 1, 2)
